@@ -273,6 +273,7 @@ def explore(chk, rng, n, tag):
         acc = res["accepted"]
         stream_model = o.split(" ")[0][len("written="):]
         pos, want = 0, []
+        chk.traces_validated += 1
         total = sum(int(p.split("*")[1]) for p in stream_model.split(",")) if stream_model != "-" else 0
         if total != len(res["out"]):
             chk.corr_break("outbound-written-length", inp, len(res["out"]), total)
